@@ -194,4 +194,37 @@ theorem filter_eq_singleton {α} [DecidableEq α] (f : α → Bool) (m : List α
       subst ha; subst hb
       simp at hnd
 
+/-- the documented identifier rule is what `find_matching_interface_name(..).unwrap_or(id)` computes -/
+theorem shortName_eq_model (n : Str) (m : List Str) :
+    Spec.shortName n m = (findMatchingInterfaceName n m).getD n := by
+  unfold Spec.shortName findMatchingInterfaceName
+  by_cases hc : m.contains n = true
+  · -- the name is a key itself: every outcome of the documented rule is the name
+    have hmem : n ∈ m := by simpa using hc
+    simp only [hc, ↓reduceIte, Option.getD_none]
+    match hl : m.filter (Spec.endsWith n) with
+    | [] => rfl
+    | [a] =>
+      have : n ∈ m.filter (Spec.endsWith n) :=
+        List.mem_filter.mpr ⟨hmem, by simp [Spec.endsWith]⟩
+      rw [hl] at this
+      simp at this
+      simp [this]
+    | _ :: _ :: _ => rfl
+  · have hnm : n ∉ m := by simpa using hc
+    simp only [hc, Bool.false_eq_true, ↓reduceIte]
+    have : m.filter (Spec.endsWith n) = m.filter (matchesInterfaceName n) := by
+      apply List.filter_congr
+      intro q hq
+      rw [matchesInterfaceName_eq]
+      have hqn : (q == n) = false := by
+        have : q ≠ n := fun e => hnm (e ▸ hq)
+        simpa using this
+      simp [Spec.endsWith, hqn]
+    rw [this]
+    match m.filter (matchesInterfaceName n) with
+    | [] => rfl
+    | [a] => rfl
+    | _ :: _ :: _ => rfl
+
 end Wac.Lemmas.C04
